@@ -351,3 +351,10 @@ PROPS['C19']['verus'] = [{'tmpl': 'sign_type.rs.tmpl', 'obligations': ['SignType
 PROPS['C19']['functions'].append('flipdot_core::sign_type::SignType::from_bytes (Verus, extracted verbatim: every byte string of EVERY length)')
 PROPS['C19']['assumptions'] += [A_USIZE, 'the Vec<u8> stored in UnknownConfig { bytes } is not constrained by the contract (Vec<u8>: From<&[u8]> has no specification); the property does not speak about it']
 PROPS['C19']['explanation'] = 'All 11 variants by Kani (block length 16, round trip, fields agree with dimensions(), (family,id) unique, virtual-sign derivation from any prior dimensions); decoding of byte strings of EVERY length by Verus on the extracted from_bytes (rejects every length other than 16 with the exact counts; accepts exactly the supported (family, id) pairs whatever the other 14 bytes are), cross-checked by Kani for lengths 0..=64.'
+
+_CTRL_TOOL = [{'kind': 'witness', 'domains': ['controller'], 'bound': '60000 random reply scripts (quick; x10 thorough) against the REAL Sign through its public API only, judged by the same protocol monitor as the Kani proofs '
+               '(kani/sign_monitor.rs, included textually): configure, configure_if_needed, shut_down, show, load-next, send_pages with 0..3 pages of 16 / 48 / 96 / 336 bytes and, every 97th script, of 4096 / 65520 / 65536 bytes (the 16-bit offset limit); '
+               'replies biased (75..100 %) towards the ones that let the conversation continue; own/foreign addresses 1:1'}]
+for _pid in ('C09', 'C10', 'C11'):
+    PROPS[_pid]['tools'] = _CTRL_TOOL
+    PROPS[_pid]['assumptions'] = PROPS[_pid]['assumptions'] + ['the native oracle run (witness search controller) is a bounded complement: it is independent of private signatures of sign.rs and reaches page sizes up to the 16-bit offset limit, which the Kani shapes do not; it is listed under bounded_standins']
